@@ -8,6 +8,7 @@ import (
 	"net"
 	"os"
 	"path/filepath"
+	"runtime"
 	"sort"
 	"strings"
 	"sync/atomic"
@@ -309,6 +310,35 @@ func genC09Filter(t *rapid.T) []byte {
 var c09QueryNames = []string{"q", "q", "", "_serf_ping", "_serf_conflict", "_serf_install-key", "_serf_use-key", "_serf_remove-key",
 	"_serf_list-keys", "_serf_install-key", "_serf_use-key", "_serf_remove-key", "_serf_", "_serf_nope", "_serf", "_serf_conflict"}
 
+// ---- announced-but-absent bytes ------------------------------------------------
+//
+// Gate class AMP (confirmed defect, see replays/C09/amp-*.json): a message
+// that carries one extra element - an ext32 of the msgpack timestamp type
+// whose header announces far more bytes than the message has. A decoder that
+// reads from a stream allocates the announced size before it notices that the
+// bytes are not there; with an announcement of 4 GiB the process dies with
+// "fatal error: out of memory" wherever 4 GiB cannot be had. The probe
+// announces 128 MiB only, which every host of this harness can afford, and
+// the oracle watches what the node allocates (c09AmpLimit).
+
+const (
+	c09AmpAnnounce = 128 << 20
+	c09AmpLimit    = 64 << 20
+)
+
+// c09Amp appends the extra element to a fixmap-encoded body that starts at
+// b[at] (serf's messages, the relay header and the probe coordinate are all
+// fixmaps); ok is false when the body is not a fixmap with room for one more.
+func c09Amp(b []byte, at int) ([]byte, bool) {
+	if len(b) <= at || b[at]&0xf0 != 0x80 || b[at] == 0x8f {
+		return b, false
+	}
+	out := append([]byte{}, b...)
+	out[at]++
+	ext := []byte{0xa1, 'x', 0xc9, byte(c09AmpAnnounce >> 24), byte(c09AmpAnnounce >> 16 & 0xff), byte(c09AmpAnnounce >> 8 & 0xff), byte(c09AmpAnnounce & 0xff), 0xff}
+	return append(out, ext...), true
+}
+
 func genC09Query(t *rapid.T, clk *c09Clk) ([]byte, string) {
 	q := serf.VerifMessageQuery{
 		LTime:       serf.LamportTime(clk.lt(t, &clk.query, "q.lt")),
@@ -461,6 +491,11 @@ func genC09Msg(t *rapid.T, clk *c09Clk, depth int) ([]byte, string) {
 			d = "relay-bad-header"
 		} else {
 			hb, _ = mpEnc(hdr)
+			if !c09Gated("AMP") && rapid.IntRange(0, 24).Draw(t, "relay.amp") == 0 {
+				if ab, ok := c09Amp(hb, 0); ok {
+					hb, d = ab, "amp:relay-header"
+				}
+			}
 		}
 		b = append([]byte{serf.VerifMessageRelayType}, hb...)
 		b = append(b, inner...)
@@ -477,6 +512,11 @@ func genC09Msg(t *rapid.T, clk *c09Clk, depth int) ([]byte, string) {
 	if len(b) > 1 && kind != "raw" && rapid.IntRange(0, 3).Draw(t, "msg.mutate") == 0 {
 		b = genC09Mutate(t, b)
 		d = "mutated:" + kind
+	}
+	if kind != "relay" && kind != "raw" && kind != "empty" && kind != "unknown" && !c09Gated("AMP") && rapid.IntRange(0, 24).Draw(t, "msg.amp") == 0 {
+		if ab, ok := c09Amp(b, 1); ok {
+			b, d = ab, "amp:"+kind
+		}
 	}
 	if c09IsGated(b) {
 		return []byte{serf.VerifMessageQueryType}, "gated"
@@ -583,9 +623,19 @@ func genC09In(t *rapid.T, clk *c09Clk, c *c09Case) c09In {
 			in.B, in.D = append([]byte{serf.VerifMessagePushPullType}, b...), "merge:wrong-field-types"
 		default:
 			in.B, in.D = genC09PushPull(t, clk), "merge:valid-shape"
+			if !c09Gated("AMP") && rapid.IntRange(0, 11).Draw(t, "merge.amp") == 0 {
+				if ab, ok := c09Amp(in.B, 1); ok {
+					in.B, in.D = ab, "merge:amp"
+				}
+			}
 		}
 	case "ping":
 		in.B = genC09Ping(t)
+		if !c09Gated("AMP") && rapid.IntRange(0, 11).Draw(t, "ping.amp") == 0 {
+			if ab, ok := c09Amp(in.B, 1); ok {
+				in.B, in.D = ab, "ping:amp"
+			}
+		}
 		in.N = genC09Node(t, "ping.node", true)
 		in.RTT = rapid.SampledFrom([]int64{1e6, 1e6, 1e3, 0, -1, 11e9, 1<<63 - 1, -1 << 63}).Draw(t, "ping.rtt")
 	case "join", "update", "leave":
@@ -694,6 +744,10 @@ type c09H struct {
 	dir    string
 	fx     map[string]bool // effects observed since the last take
 	selfDn bool            // the node shut itself down after losing a name conflict vote (by design)
+	// lingering: a handler goroutine of an earlier input outlived its settle
+	// step; what it does later cannot be told apart from the effect of the
+	// current input, so the "malformed input changes nothing" oracle is off
+	lingering bool
 }
 
 func c09MLNode(c *c09Node) *memberlist.Node {
@@ -942,6 +996,7 @@ func (h *c09H) settle() (ok bool, why string) {
 		}
 		if !waitSerfWork(5 * time.Second) {
 			h.fx["handler-goroutines-lingering"] = true
+			h.lingering = true
 		}
 		fed := 0
 		for _, p := range node.UserMsgs(h.nw.Packets()) {
@@ -1122,11 +1177,24 @@ func bodyC09(c c09Case, x *vkit.Ctx) {
 		}
 		coordBefore, _ := h.n.Serf.GetCoordinate()
 		malformed, mclass := c09Malformed(in, c.NoCoord)
+		malformed = malformed && !h.lingering
 		var stateBefore string
 		if malformed {
 			stateBefore = c09State(h.n.Serf)
 		}
+		allocBefore := c09TotalAlloc()
 		h.inject(in)
+		if grown := c09TotalAlloc() - allocBefore; grown > c09AmpLimit && len(in.B) < 1<<20 {
+			// the input announced bytes it does not carry and the node allocated them
+			// on its word; the same input announcing 4 GiB ends the process with
+			// "fatal error: out of memory" on any host that cannot spare 4 GiB
+			if vkit.IsKnown("C09", "allocates-announced-size:"+in.E) {
+				x.Excluded()
+			} else {
+				x.Violationf("allocates-announced-size:"+in.E, "input %d (%s/%s, %d bytes: %s) made the node allocate %d MiB", i, in.E, in.D, len(in.B), hexShort(in.B), grown>>20)
+				return
+			}
+		}
 		if malformed {
 			// "malformed input is ignored": nothing of it may reach the node's
 			// bookkeeping (the entry points reject it before any handler runs, so
@@ -1187,6 +1255,12 @@ func bodyC09(c c09Case, x *vkit.Ctx) {
 		h.fx = map[string]bool{}
 	}
 	x.NonTrivial(reached > 0)
+}
+
+func c09TotalAlloc() uint64 {
+	var ms runtime.MemStats
+	runtime.ReadMemStats(&ms)
+	return ms.TotalAlloc
 }
 
 func c09ConfigLabels(c *c09Case) []string {
@@ -1258,9 +1332,18 @@ func bodyC09Lanes(c *c09Case, h *c09H, x *vkit.Ctx) {
 			}
 		}()
 	}
+	allocBefore := c09TotalAlloc()
 	close(start)
 	for i := 0; i < busy; i++ {
 		<-done
+	}
+	if grown := c09TotalAlloc() - allocBefore; grown > c09AmpLimit {
+		if vkit.IsKnown("C09", "allocates-announced-size:lanes") {
+			x.Excluded()
+		} else {
+			x.Violationf("allocates-announced-size:lanes", "%d inputs on %d lanes made the node allocate %d MiB", len(c.In), busy, grown>>20)
+			return
+		}
 	}
 	x.Labelf("lanes:busy=%d", busy)
 	ok, why := h.settle()
